@@ -34,7 +34,7 @@ def make_array(rc, registry=None):
     recipe keys: dtype (numpy dtype str incl. byte order), shape [rows] or [rows, width],
       kind: 'rand' (seed) | 'vals' (vals: flat list) | 'ramp' (start, step, jitter=[...]) | 'hex' (hex)
       layout: 'C' | 'F' | 'strided' | 'readonly' | 'view'   (default C)
-      rows: optional int - keep only the first `rows` rows (used by the shrinker)
+      skip, rows: optional ints - drop the first `skip` rows, then keep only the first `rows` rows
     `registry`, if given, receives (label, base buffer) pairs for caller-buffer checksums.
     """
     dt = np.dtype(rc['dtype'])
@@ -62,6 +62,9 @@ def make_array(rc, registry=None):
     else:
         raise ValueError('unknown array kind %r' % kind)
     a = a.reshape(shape)
+    skip = rc.get('skip')
+    if skip:
+        a = a[skip:]
     rows = rc.get('rows')
     if rows is not None:
         a = a[:rows]
